@@ -11,9 +11,11 @@ pub mod spec;
 pub mod stubs;
 
 pub mod h_unarmor;
+pub mod p_c01;
 pub mod p_c04;
 pub mod p_c09;
 pub mod p_c12;
+pub mod p_c13;
 pub mod p_c14;
 pub mod p_c15;
 pub mod p_c16;
@@ -32,6 +34,12 @@ pub fn lookup<N: nd::Nd>(name: &str) -> Option<fn(&mut N)> {
         .or_else(|| p_c12::wp::LP::<N>(name))
         .or_else(|| p_c12::wt::LT::<N>(name))
         .or_else(|| p_c16::wp::LP::<N>(name))
+        .or_else(|| p_c01::wfp::LFP::<N>(name))
+        .or_else(|| p_c01::wft::LFT::<N>(name))
+        .or_else(|| p_c01::wtx::LTX::<N>(name))
+        .or_else(|| p_c01::wtx4::LTX4::<N>(name))
+        .or_else(|| p_c13::w8::L8::<N>(name))
+        .or_else(|| p_c13::w20::L20::<N>(name))
         .or_else(|| p_c15::ws::LS::<N>(name))
         .or_else(|| p_c15::wl::LL::<N>(name))
         .or_else(|| p_c14::wp::LP::<N>(name))
